@@ -476,6 +476,10 @@ def _long_lived(t):
     return b in LONG_LIVED
 
 
+import re as _re_v
+VIEW_TYPES = _re_v.compile(r'\b(const_buffer|mutable_buffer|const_buffers_1|mutable_buffers_1|basic_string_view|string_view|span)\b')
+
+
 def nonowning_captures(fn, lam):
     """Captures of lambda node `lam` (in fn) that do not own what they refer to: `this`, by-reference captures and
     raw-pointer captures - except references/pointers to the tabled simulation-lifetime types (LONG_LIVED).
@@ -492,4 +496,6 @@ def nonowning_captures(fn, lam):
             out.append((c.get('name'), 'by reference', t or ''))
         elif t and t.rstrip().endswith('*'):
             out.append((c.get('name'), 'raw pointer', t))
+        elif t and VIEW_TYPES.search(t):
+            out.append((c.get('name'), 'view', t))
     return out
